@@ -14,12 +14,12 @@ from ..trace import Trace
 RULE = ("Cases: the full finite grid variant in {sift, mask_sift(zc), mask_sift(list), ensemble_sift and complete_ensemble_sift in both noise modes, "
         "sift_second_layer} x IMF options (3 stop rules x step in {1, 0.5} with non-default thresholds) x interp_method "
         "(3) x extrema options {pad 1; pad 4 + parabolic; custom median stat_length 3; defaults} x delivery route "
-        "{keyword dicts, **SiftConfig, SiftConfig.get_func(), functools.partial} x nprocesses in {1, 3} x 1 (quick) / 2 "
+        "{keyword dicts, **SiftConfig, SiftConfig.get_func(), functools.partial, get_func() taken again after whole option groups were replaced on a configuration that had already produced a partial} x nprocesses in {1, 3} x 1 (quick) / 2 "
         "(thorough) signals of 128 samples, enumerated completely. Oracle (guarded in-tree trace, read from every process): "
         "every get_next_imf call made during the top-level call received exactly the supplied IMF options and the supplied "
         "envelope / extrema options; every interp_envelope / get_padded_extrema call made inside a get_next_imf received the "
         "supplied interp_method / pad width / refinement / pad dicts; at least one record of each stage exists; with "
-        "nprocesses > 1 records come from other pids; and the four delivery routes give np.array_equal outputs (RNG "
+        "nprocesses > 1 records come from other pids; and the five delivery routes give np.array_equal outputs (RNG "
         "re-seeded); (spawn) 16 (quick) / 48 (thorough) grid points re-run in fresh interpreters whose pools start their workers with the spawn / forkserver start methods, same trace oracle; (reference) Hypothesis signals (incl. mid-record bursts whose extrema need several padding passes) x "
         "option sets incl. custom np.pad magnitude options x route: the first IMFs of the classic / second-layer sift must "
         "equal (1e-9) the pipeline assembled from the independent reference stages run with the same options. "
@@ -48,7 +48,9 @@ EXTREMA = [
 ]
 VARIANTS = ['sift', 'mask_sift_zc', 'mask_sift_list', 'ensemble_sift', 'complete_ensemble_sift', 'ensemble_sift_flip',
             'complete_ensemble_sift_flip', 'sift_second_layer']
-ROUTES = ['kwargs', 'config', 'get_func', 'partial']
+# 'get_func_rebound': a partial is taken from the configuration first, then whole option groups are replaced on the same
+# configuration object (conf['imf_opts'] = {...}) and a partial is taken again - it must carry the options now in force
+ROUTES = ['kwargs', 'config', 'get_func', 'partial', 'get_func_rebound']
 
 
 def norm_extrema(eo):
@@ -110,6 +112,13 @@ def call_variant(emd, variant, route, x, imf_opts, envelope_opts, extrema_opts, 
         conf = S.get_config(name)
         for k, v in extra.items():
             conf[k] = v
+        if route == 'get_func_rebound':
+            conf.get_func()
+            for st, d in stage.items():
+                group = dict(conf[st])
+                group.update(d)
+                conf[st] = group
+            return conf
         for st, d in stage.items():
             for k, v in d.items():
                 conf['%s/%s' % (st, k)] = v
@@ -123,7 +132,7 @@ def call_variant(emd, variant, route, x, imf_opts, envelope_opts, extrema_opts, 
                 return functools.partial(func, sift_args=args)(ia.copy())
             return func(ia.copy(), sift_args=args)
         conf = config()
-        if route == 'get_func':
+        if route in ('get_func', 'get_func_rebound'):
             return func(ia.copy(), sift_func=conf.get_func(), sift_args={'max_imfs': extra['max_imfs']})
         return func(ia.copy(), sift_args=conf)
     if route == 'kwargs':
@@ -316,7 +325,7 @@ def enum_spawn(tier):
         for mi, m in enumerate(methods):
             for io in ((1, 2) if tier == 'quick' else range(len(IMF_OPTS))):
                 pts.append({'variant': v, 'method': m, 'imf': io, 'interp': (io + vi) % 3, 'extrema': (io + mi) % 3,
-                            'nproc': 1 + (io + vi + mi) % 2 * 2, 'route': ROUTES[(io + vi) % 4]})
+                            'nproc': 1 + (io + vi + mi) % 2 * 2, 'route': ROUTES[(io + vi) % len(ROUTES)]})
     for p in pts:
         yield p
 
